@@ -162,7 +162,7 @@ pub fn gen_random(seed: u64, idx: u64) -> Plan {
     Plan {
         property: "C16".into(),
         seed: mix(seed, idx),
-        server: ServerPlan { mode, body_limit: 1024, api: ApiKind::Work, rt_override: None },
+        server: ServerPlan { mode, body_limit: 1024, api: ApiKind::Work, rt_override: None, tls: false },
         conns,
         shutdown: None,
         accept_errs: vec![],
@@ -221,7 +221,7 @@ pub fn gen_base(seed: u64, idx: u64) -> (Plan, Vec<u8>, u64, usize) {
     let plan = Plan {
         property: "C16".into(),
         seed: mix(seed, idx),
-        server: ServerPlan { mode, body_limit: 1024, api: ApiKind::Work, rt_override: None },
+        server: ServerPlan { mode, body_limit: 1024, api: ApiKind::Work, rt_override: None, tls: false },
         conns,
         shutdown: None,
         accept_errs: vec![],
